@@ -239,10 +239,63 @@ def molalityToMolarity (t m p : α) : α :=
   let vol := 1.0e3 * massSolution / saltDensity t m p
   m / vol
 
-/-! ### PassiveCalibrationModel -/
-
 inductive Err | value | notImplemented
 deriving DecidableEq, Repr
+
+/-! ### the public water functions: molarity → molality, validity, formula -/
+
+/-- `implicit_equation(molality)` inside `molarity_to_molality(c, t, p, 58.4428)`: zero where a solution of molality
+    `m` has molarity `c` (1 L of solution weighs `ρ·1e-3` kg, of which `M c 1e-3` kg is salt). -/
+def molalityResidual (t c p m : α) : α :=
+  let massSolution := saltDensity t m p * 1.0e-3
+  let massSalt := 58.4428 * c * 1.0e-3
+  c / (massSolution - massSalt) - m
+
+/-- the sign change of `g` between `lo` and `hi` (`0 ≤ g lo`, `g hi ≤ 0`) bracketed by `k` halvings; the answer is
+    the midpoint of the last bracket.  (The code calls `scipy.optimize.brentq` on the same bracket `[0, 6]`; both
+    converge to the root of the same function, the comparison tolerance absorbs the difference.) -/
+def bisect (g : α → α) : Nat → α → α → α
+  | 0, lo, hi => (lo + hi) / 2.0
+  | k + 1, lo, hi =>
+    let mid := (lo + hi) / 2.0
+    if lt 0.0 (g mid) then bisect g k mid hi else bisect g k lo mid
+
+/-- `molarity_to_molality(c, t, p, 58.4428)`: the density at both ends of the bracket must be defined (validity of
+    `t`, `p`), the residual must change sign over `[0, 6]` (else `ValueError`: molarity outside the model), and the
+    root is returned (`brentq` answers an end point whose residual is exactly zero, e.g. `c = 0`). -/
+def molarityToMolality (t c p : α) : Except Err α :=
+  if !(saltValid t 0.0 p) then .error .value else
+  let g := molalityResidual t c p
+  let g0 := g 0.0
+  let g6 := g 6.0
+  if (lt 0.0 g0 && lt 0.0 g6) || (lt g0 0.0 && lt g6 0.0) then .error .value else
+  if isZero g0 then .ok 0.0 else if isZero g6 then .ok 6.0 else .ok (bisect g 100 0.0 6.0)
+
+/-- Python truthiness of an optional number (`None` and `0` are falsy) -/
+def truthy (o : Option α) : Bool := match o with | some x => !isZero x | none => false
+
+/-- `viscosity_of_water(T, molarity_nacl, pressure)` for one temperature: the Kestin salt model when a pressure
+    and/or a molarity is given (`if pressure or molarity_nacl:`), else Huber et al.  A pure function of its three
+    arguments: nothing is remembered between calls.  (`molarity_nacl=None` together with a pressure is not modelled.) -/
+def viscosityOfWater [RPow α] (T : α) (c p : Option α) : Option (Except Err α) :=
+  if truthy p || truthy c then
+    match c with
+    | none => none
+    | some c =>
+      let p := p.getD 0.101325
+      some do
+        let m ← molarityToMolality T c p
+        if saltValid T m p then .ok (saltViscosity T m p) else .error .value
+  else
+    some (if le (-20.0) T && lt T 110.0 then .ok (viscosityWater T) else .error .value)
+
+/-- `density_of_water(T, molarity, pressure=0.101325)` for one temperature -/
+def densityOfWater (T c : α) (p : Option α) : Except Err α := do
+  let p := p.getD 0.101325
+  let m ← molarityToMolality T c p
+  if saltValid T m p then .ok (saltDensity T m p) else .error .value
+
+/-! ### PassiveCalibrationModel -/
 
 structure PassiveCfg (α : Type) where
   diameter : α
@@ -262,6 +315,9 @@ structure Passive (α : Type) where
   dragCoeff : α
   dragCorrection : α
   toLocalDrag : α
+  /-- the bulk drag coefficient bound into the hydrodynamic spectrum when the model is built
+      (`partial(passive_power_spectrum_model_hydro, gamma0=self.drag_coeff, …)`); `_set_drag` does not rebind it -/
+  spectrumGamma0 : α
 
 /-- `PassiveCalibrationModel.__init__`: the validation chain in the code's order, then the derived numbers. -/
 def Passive.init [RPow α] (c : PassiveCfg α) : Except Err (Passive α) :=
@@ -279,7 +335,7 @@ def Passive.init [RPow α] (c : PassiveCfg α) : Except Err (Passive α) :=
     if lt c.rhoBead 100.0 then .error .value else
     let R := c.diameter * 1.0e-6 / 2.0
     let l := c.distance.map (· * 1.0e-6)
-    .ok ⟨c, eta, drag, 1.0, (complexDrag 0.0 1.0 rhoS R l).1⟩
+    .ok ⟨c, eta, drag, 1.0, (complexDrag 0.0 1.0 rhoS R l).1, drag⟩
   else
     let corr := match c.distance with
       | some l =>
@@ -288,13 +344,13 @@ def Passive.init [RPow α] (c : PassiveCfg α) : Except Err (Passive α) :=
         else if c.axial then brenner (l * 1.0e-6) (c.diameter * 1.0e-6 / 2.0)
         else faxen (l * 1.0e-6) (c.diameter * 1.0e-6 / 2.0)
       | none => 1.0
-    .ok ⟨c, eta, drag, corr, 1.0⟩
+    .ok ⟨c, eta, drag, corr, 1.0, drag⟩
 
 /-- the physical spectrum selected by `__init__` -/
 def Passive.physical (m : Passive α) (f fc D : α) : α :=
   if m.cfg.hydro then
     let rhoS := match m.cfg.rhoSample with | some r => r | none => 997.0
-    hydroPsd f fc D m.dragCoeff (m.cfg.diameter * 1.0e-6 / 2.0) rhoS m.cfg.rhoBead (m.cfg.distance.map (· * 1.0e-6))
+    hydroPsd f fc D m.spectrumGamma0 (m.cfg.diameter * 1.0e-6 / 2.0) rhoS m.cfg.rhoBead (m.cfg.distance.map (· * 1.0e-6))
   else lorentzian f fc D
 
 /-- `PassiveCalibrationModel.__call__(f, fc, D, f_diode, alpha)` (`fast_sensor`: no filter parameters, factor 1) -/
@@ -303,6 +359,41 @@ def Passive.call (m : Passive α) (f fc D fd a : α) : α :=
 
 /-- `model._drag = drag_coeff · _drag_correction_factor` -/
 def Passive.drag (m : Passive α) : α := m.dragCoeff * m.dragCorrection
+
+/-- `model._set_drag(drag)` (what `calibrate_force(..., drag=…)` does to carry a bulk drag coefficient over from another
+    calibration): the model reports the new coefficient; the spectrum it was built with — bead radius, densities,
+    distance to the surface in metres, the bulk drag bound at construction — stays as it is. -/
+def Passive.setDrag (m : Passive α) (g : α) : Passive α := { m with dragCoeff := g }
+
+/-! ### wrappers composed on a model object (`model._motion_blur(T)._alias_model(fs, n)` …) -/
+
+/-- one step of the camera chain -/
+inductive Wrapper (α : Type) where
+  /-- `_motion_blur(acquisition_time)` -/
+  | blur (T : α)
+  /-- `_alias_model(sample_rate, num_aliases)` -/
+  | aliasing (fs : α) (n : Nat)
+
+/-- the function a step installs as `_calculate_power_spectral_density` of the copy, around the one it finds there -/
+def Wrapper.apply (w : Wrapper α) (psd : α → α) : α → α :=
+  match w with
+  | .blur T => motionBlur psd T
+  | .aliasing fs n => aliasSpectrum psd fs n
+
+/-- Every step copies the model and wraps the copy's CURRENT `_calculate_power_spectral_density`, which already
+    carries the wrappers installed by the earlier steps: a left fold over the steps, innermost first. -/
+def wrapChain (ws : List (Wrapper α)) (psd : α → α) : α → α := ws.foldl (fun p w => w.apply p) psd
+
+/-- the spectral density of the model after every prefix of the chain (the unwrapped model first): each step returns
+    a new object and leaves the one it was derived from as it was -/
+def chainStages (ws : List (Wrapper α)) (psd : α → α) (f : α) : List α :=
+  (List.range (ws.length + 1)).map fun k => wrapChain (ws.take k) psd f
+
+/-- number of evaluations of the innermost spectrum one evaluation of the chain costs (driver guard) -/
+def chainCost : List (Wrapper α) → Nat
+  | [] => 1
+  | .blur _ :: ws => chainCost ws
+  | .aliasing _ n :: ws => (2 * n + 1) * chainCost ws
 
 end formulas
 
@@ -324,6 +415,20 @@ def cfg? : List String → Option (PassiveCfg Float)
       ← bool? fast, ← bool? ax⟩
   | _ => none
 
+/-- the steps of a wrapper chain: `B T` (motion blur) or `A fs n` (aliasing), in the order they are applied -/
+def chain? : List String → Option (List (Wrapper Float))
+  | [] => some []
+  | "B" :: T :: rest => do
+    let T ← float? T
+    let ws ← chain? rest
+    some (.blur T :: ws)
+  | "A" :: fs :: n :: rest => do
+    let fs ← float? fs
+    let n ← nat? n
+    let ws ← chain? rest
+    some (.aliasing fs n :: ws)
+  | _ => none
+
 /-- ops (all numbers are IEEE bit patterns `b…`, `N` = None, `T`/`F` booleans):
   `c20.lor f fc D` · `c20.diode f fd α` · `c20.sinc x` · `c20.blur f T fc D` · `c20.blurpeak peak fd T`
   `c20.alias f fs n fc D fd α` (aliased Lorentzian·diode) · `c20.drivenlor fc fd A`
@@ -331,7 +436,10 @@ def cfg? : List String → Option (PassiveCfg Float)
   `c20.faxen h R` · `c20.brenner h R` · `c20.goldman R d T|F`
   `c20.visc T` · `c20.zpv t m` · `c20.pf t m` · `c20.saltvisc t m p` · `c20.saltdens t m p` · `c20.molarity t m p`
   `c20.passive <cfg 9 tokens> f fc D fd α`  -> `[psd, drag_coeff, drag_correction, to_local_drag, viscosity]` or an error name
-  `c20.passiveblur <cfg> T f fc D fd α` · `c20.passivealias <cfg> fs n f fc D fd α` -/
+  `c20.passiveblur <cfg> T f fc D fd α` · `c20.passivealias <cfg> fs n f fc D fd α`
+  `c20.passivechain <cfg> f fc D fd α <steps: B T | A fs n …>` -> the spectral density after every prefix of the chain
+  `c20.passivesetdrag <cfg> f fc D fd α γ <steps>` -> `[psd before, psd after _set_drag(γ), after every further step…, drag_coeff, _drag]`
+  `c20.water V|D [T,…] c|N p|N` -> `viscosity_of_water` / `density_of_water` at each temperature, or an error name -/
 def handle : List String → Option String
   | ["c20.lor", f, fc, D] => do
     some (showFloat (lorentzian (← float? f) (← float? fc) (← float? D)))
@@ -412,6 +520,42 @@ def handle : List String → Option String
       | .error e => some (showErr e)
       | .ok m => some (showFloat (aliasSpectrum (fun f => m.call f fc D fd a) fs n f))
     | _ => none
+  | "c20.passivechain" :: rest =>
+    if rest.length < 14 then none else do
+    let c ← cfg? (rest.take 9)
+    match (rest.drop 9).take 5 with
+    | [f, fc, D, fd, a] =>
+      let f ← float? f; let fc ← float? fc; let D ← float? D; let fd ← float? fd; let a ← float? a
+      let ws ← chain? (rest.drop 14)
+      if chainCost ws > 200000 then none else
+      match Passive.init c with
+      | .error e => some (showErr e)
+      | .ok m => some (showFloatList (chainStages ws (fun f => m.call f fc D fd a) f))
+    | _ => none
+  | "c20.passivesetdrag" :: rest =>
+    if rest.length < 15 then none else do
+    let c ← cfg? (rest.take 9)
+    match (rest.drop 9).take 6 with
+    | [f, fc, D, fd, a, g] =>
+      let f ← float? f; let fc ← float? fc; let D ← float? D; let fd ← float? fd; let a ← float? a; let g ← float? g
+      let ws ← chain? (rest.drop 15)
+      if chainCost ws > 200000 then none else
+      match Passive.init c with
+      | .error e => some (showErr e)
+      | .ok m =>
+        let m' := m.setDrag g
+        some (showFloatList (m.call f fc D fd a :: chainStages ws (fun f => m'.call f fc D fd a) f ++ [m'.dragCoeff, m'.drag]))
+    | _ => none
+  | ["c20.water", fn, ts, c, p] => do
+    let ts ← floatList? ts; let c ← optFloat? c; let p ← optFloat? p
+    let one (T : Float) : Option (Except Err Float) :=
+      if fn == "V" then viscosityOfWater T c p
+      else if fn == "D" then c.map fun c => densityOfWater T c p
+      else none
+    let rs ← ts.mapM one
+    match rs.mapM id with
+    | .error e => some (showErr e)
+    | .ok vs => some (showFloatList vs)
   | _ => none
 
 end Verif.C20
